@@ -39,6 +39,7 @@ SPEC = {
         {"name": "TestConcurrentFactory", "quick": 240, "thorough": 24000, "shards_quick": 4, "shards_thorough": 16, "timeout": 1800,
          "race": True, "replay_repeat": 20},
         {"name": "TestRegisterHelpers", "quick": 1800, "thorough": 300000, "shards_quick": 2, "shards_thorough": 16, "timeout": 1800},
+        {"name": "TestNestedSections", "quick": 3000, "thorough": 300000, "shards_quick": 2, "shards_thorough": 16, "timeout": 1800},
         {"name": "TestIllegalRegistrations", "quick": 3000, "thorough": 60000, "shards_quick": 2, "shards_thorough": 8, "timeout": 1800},
     ],
     "rule": ("TestShapes: every case registers ALL 108 supported constructor shapes ({returns component | returns factory} x {no config | "
@@ -69,7 +70,21 @@ SPEC = {
              "name as component / func() (I, error) / func() I, directly (plugin.New / NewFactory + overlaying fillConf) and "
              "through the decoder and plugin hooks, from any subset of the options, 1-3 products: configured with the registered "
              "default of that kind overlaid by the settings (unset options keep the default), constructor / registered-factory "
-             "call counts as for plugin.Register. TestIllegalRegistrations: 48 registrations the "
+             "call counts as for plugin.Register. TestNestedSections (added after seeded defect C18/m11): four NESTING component "
+             "types ({component, factory} constructor x {struct config, pointer config with default func and error results}) whose "
+             "config holds an interface-typed plugin field, a list of them, one inside a plain settings struct, a func() (I, error) "
+             "field and a list of func() I fields; the generated section tree (flat components of TestConfigPath's seven non-strict "
+             "types or, one level down, nesting components again; every section by itself given as map[string]interface{} - JSON, "
+             "viper YAML - or map[interface{}]interface{}, type key spelled type / Type / TYPE) is decoded by the real decoder and "
+             "hooks into a component field 1-4 times from the same settings value, or into a func() (I, error) / func() I field whose "
+             "factory is called 1-4 times, and every nested factory of every product is called 1-2 times (and once more at the "
+             "end): every product and every nested component is configured with its registered default overlaid by ITS section, "
+             "products decoded separately (component constructors, repeated decoding, nested factories of component constructors) "
+             "share no component and no config object, the constructor of the top registration ran once per product (factory "
+             "constructors: once), and after the decode and after every product the caller's settings deep-equal a copy taken "
+             "before; one case in nine makes a flat component section right under the top one bad (unknown key, no type key, "
+             "failing constructor): the error must reach the caller at decode (component field, factory constructor) or at EVERY "
+             "product (result, or panic carrying it), settings still unchanged. TestIllegalRegistrations: 48 registrations the "
              "package documents as illegal. Non-trivial = >= 2 products from one factory or an error path was taken (illegal "
              "registrations: always); distinct = hash of the case."),
     "floors": {
@@ -89,6 +104,19 @@ SPEC = {
         "TestRegisterHelpers/unset_option_keeps_default:Aggregator": 0.035, "TestRegisterHelpers/helper_without_default:Aggregator": 0.008,
         "TestRegisterHelpers/unset_option_keeps_default:DataSource": 0.035, "TestRegisterHelpers/helper_without_default:DataSource": 0.008,
         "TestRegisterHelpers/unset_option_keeps_default:DataSink": 0.035, "TestRegisterHelpers/helper_without_default:DataSink": 0.008,
+        # classes added after seeded defect C18/m11 (nested component sections decoded once per product)
+        "TestNestedSections/section_decoded_2plus_times": 0.27,
+        "TestNestedSections/decoded_2plus_times_nested_component_string_keys": 0.22,
+        "TestNestedSections/decoded_2plus_times_nested_component_yaml_keys": 0.12,
+        "TestNestedSections/component_ctor_factory_2plus_products_nested_string_keys": 0.13,
+        "TestNestedSections/component_ctor_factory_2plus_products_nested_list": 0.08,
+        "TestNestedSections/component_ctor_factory_2plus_products_nested_in_plain_struct": 0.045,
+        "TestNestedSections/component_field_decoded_2plus_times_string_keys": 0.06,
+        "TestNestedSections/factory_ctor_factory_2plus_products": 0.14,
+        "TestNestedSections/nesting_component_inside_nesting_component": 0.25,
+        "TestNestedSections/nested_factory_called_2plus_times": 0.18,
+        "TestNestedSections/nested_error_at_decode": 0.035, "TestNestedSections/nested_error_at_every_product": 0.02,
+        "TestNestedSections/field_factory_err": 0.25, "TestNestedSections/field_factory_noerr": 0.2,
         "TestShapes/factory_with_2plus_products": 0.5, "TestShapes/error_as_result": 0.38, "TestShapes/error_as_panic": 0.3,
         "TestShapes/fillconf_error": 0.18, "TestShapes/constructor_error": 0.2, "TestShapes/registered_factory_error": 0.2,
         "TestShapes/newfactory_error": 0.19, "TestShapes/config_mutated_by_product": 0.35, "TestShapes/independence_checked": 0.5,
@@ -131,7 +159,10 @@ SPEC = {
                  "options keep the registered default. The same is checked end-to-end through config.Decode + pluginconfig hooks, "
                  "where a registered default that breaks the config's validate rules and is not repaired by the section (in particular a "
                  "section holding only the type key) is a config error that must reach the caller like any other, and a section that "
-                 "repairs it yields components configured with default overlaid by the section."),
+                 "repairs it yields components configured with default overlaid by the section. Components whose settings nest "
+                 "further component and factory sections are created through the same path repeatedly: every product gets nested "
+                 "components of its own, each configured by its own section, and the settings the caller handed over (string-keyed "
+                 "or untyped-keyed maps) are the same after every decode and every product as before."),
         "note": ("fillConf in the private-registry tests is the harness' own overlay (present fields replace), so decoder semantics for "
                  "slices/maps that overlay NON-empty defaults (mapstructure merges element-wise) are deliberately not asserted; the "
                  "config-path test uses nil slice/map defaults. For constructors without a config the number of fillConf calls per "
@@ -143,6 +174,7 @@ SPEC = {
         "factories of one registration may be called from several goroutines at once (the engine starts the instances of a pool - one gun factory call each, one schedule factory call with rps-per-instance - in goroutines of their own)",
         "the helpers covered are the exported functions of core/register at the time of writing: Provider, Limiter, Gun, Aggregator, DataSource, DataSink (RegisterPtr is what TestConfigPath registers through)",
         "a failed creation does not poison a factory: later calls of the same factory are judged by the same model",
+        "decoding does not edit the settings value it is given: a factory of a component constructor decodes the same section (and the sections nested in it) once per product, so the caller's maps are its input for every later product (/repo 9d29bd6)",
         "the component's observable config is what the recording constructor received (struct configs are copied by value by Go itself)",
     ],
 }
